@@ -277,3 +277,148 @@ def case_task(envr, item):
 GROUPS.append(Group('X2c', 'case conversions: text as str does it; settings kept at every position when the length is kept',
                     ['C10', 'C11'], 'U', ['AnsiString.' + m for m in CASE_METHODS], case_items, case_task,
                     bounds='none (str case mapping uninterpreted: the library returns what str returns)'))
+
+
+# ============================================================================================= X3 / Y1: _strip
+from pyvc import loopcut  # noqa: E402
+from pyvc import builtins_model as bm  # noqa: E402
+import z3  # noqa: E402
+
+
+def _member(interp, fr, ch):
+    r = bm.v_in(interp, ch, fr.env['chars'])
+    if isinstance(r, sym.Approx):
+        raise sym.Unsupported('membership undecidable')
+    return r
+
+
+def inv_strip_left(interp, fr, i, text):
+    """after i iterations: lcount == i and the first i characters are all in `chars`"""
+    c = sym.ctx()
+    return b_and(i_cmp('==', fr.env['lcount'], i),
+                 loopcut.forall_lt(c, i, lambda j: sym.Z(_member(interp, fr, text['char'](j)))
+                                   if not isinstance(_member(interp, fr, text['char'](j)), bool)
+                                   else _member(interp, fr, text['char'](j))))
+
+
+def inv_strip_right(interp, fr, i, text):
+    """after i iterations: rcount == -i and the last i characters (positions hi-i .. hi-1) are all in `chars`"""
+    c = sym.ctx()
+    return b_and(i_cmp('==', fr.env['rcount'], sym.i_neg(i)),
+                 loopcut.forall_range(c, sym.i_sub(text['hi'], i), text['hi'],
+                                      lambda p: _member(interp, fr, text['char_at'](p))))
+
+
+STRIP_CUTS = {
+    ('AnsiString._strip', 0): loopcut.ForTextCut('strip-left', ['lcount'], inv_strip_left),
+    ('AnsiString._strip', 1): loopcut.ForTextCut('strip-right', ['rcount'], inv_strip_right),
+}
+CL_STRIP = [
+    Clause('text-is-str-strip-of-base-text', 'post_strip_text'),
+    Clause('characters-keep-settings-at-true-offset', 'post_strip_view', forall='strip_k_range'),
+    Clause('wf', 'post_result_wf_ok'),
+    Clause('inplace-returns-self-else-receiver-untouched', 'post_strip_inplace'),
+]
+
+
+def strip_items(tier):
+    return [[cs, l, r] for cs in ('none', 'opaque', 'lit') for l in (0, 1) for r in (0, 1)]
+
+
+def strip_task(envr, item):
+    cs, dl, dr = item
+
+    def body(c):
+        s, info = abs_string(c, 'a')
+        if cs == 'none':
+            chars = None
+        elif cs == 'lit':
+            chars = 'xy'
+        else:
+            chars = sym.s_opaque(c.opaque_text('Chars'))
+        run_contract(envr, c, 'AnsiString._strip', s, [chars, c.named_bool('inplace'), bool(dl), bool(dr)], {}, CL_STRIP)
+
+    def pool(envr):
+        from pyvc.argkinds import native_receivers
+        for base in native_receivers(envr):
+            for ch in (None, ' ', 'a', 'ab', ' \t', 'aX '):
+                for inp in (False, True):
+                    yield ('AnsiString._strip', base, [ch, inp, bool(dl), bool(dr)], {}, {})
+    return ContractRun(body, CL_STRIP, use=('ABS',), cuts=STRIP_CUTS, pool=pool)
+
+
+GROUPS.append(Group('X3', '_strip (strip/lstrip/rstrip): text equals str.strip of the base text for the given or default set; '
+                    'surviving characters keep their settings', ['C10', 'C11'], 'U', ['AnsiString._strip', 'AnsiString.clip'],
+                    strip_items, strip_task,
+                    bounds='none: any text length (loops cut by the invariants "the first/last i characters are in the set"), '
+                    'abstract table', assumes=['G2', 'SL']))
+
+
+# ============================================================================================= X4 / Y1: partition, removeprefix/suffix
+CL_PART = [
+    Clause('piece-texts-as-str', 'post_part_texts'),
+    Clause('pieces-keep-settings-at-true-offset', 'post_part_view', forall='part_k_range'),
+    Clause('pieces-wf-new-objects-receiver-untouched', 'post_part_pieces_ok'),
+]
+RAISES_PART = {'ValueError': 'raises_like_str_part'}
+
+
+def part_items(tier):
+    return [['partition'], ['rpartition']]
+
+
+def part_task(envr, item):
+    mname = item[0]
+
+    def body(c):
+        s, info = abs_string(c, 'a')
+        sep = sym.s_opaque(c.opaque_text('Sep', 1))
+        run_contract(envr, c, 'AnsiString.' + mname, s, [sep], {}, CL_PART, fields={'right': mname == 'rpartition'})
+
+    def pool(envr):
+        from pyvc.argkinds import native_receivers
+        for base in native_receivers(envr):
+            for sep in ('a', 'b', 'ab', ' ', 'X', 'bb', 'zz'):
+                yield ('AnsiString.' + mname, base, [sep], {}, {'right': mname == 'rpartition'})
+    return ContractRun(body, CL_PART, use=('ABS',), pool=pool)
+
+
+GROUPS.append(Group('X4p', 'partition / rpartition: piece texts as str (both (s, "", "") when the separator is absent); pieces keep '
+                    'their settings', ['C10', 'C11'], 'U', ['AnsiString.partition', 'AnsiString.rpartition'], part_items,
+                    part_task, bounds='none: abstract table, opaque text and non-empty separator; str.find/rfind uninterpreted '
+                    'with the assumed contract "a hit is a position where the text reads the pattern"', assumes=['G2', 'SL', 'V5']))
+
+CL_RMFIX = [
+    Clause('text-as-str', 'post_rmfix_text'),
+    Clause('characters-keep-settings-at-true-offset', 'post_rmfix_view', forall='rmfix_k_range'),
+    Clause('wf', 'post_result_wf_ok'),
+    Clause('inplace-returns-self-else-receiver-untouched', 'post_strip_inplace'),
+]
+
+
+def rmfix_items(tier):
+    return [['removeprefix'], ['removesuffix']]
+
+
+def rmfix_task(envr, item):
+    mname = item[0]
+
+    def body(c):
+        s, info = abs_string(c, 'a')
+        fix = sym.s_opaque(c.opaque_text('Fix'))
+        run_contract(envr, c, 'AnsiString.' + mname, s, [fix, c.named_bool('inplace')], {}, CL_RMFIX,
+                     fields={'suffix_mode': mname == 'removesuffix', 'fix': fix})
+
+    def pool(envr):
+        from pyvc.argkinds import native_receivers
+        for base in native_receivers(envr):
+            for fix in ('', 'a', 'ab', ' ', 'bb', 'Xa ', 'x'):
+                for inp in (False, True):
+                    yield ('AnsiString.' + mname, base, [fix, inp], {}, {'suffix_mode': mname == 'removesuffix', 'fix': fix})
+    return ContractRun(body, CL_RMFIX, use=('ABS',), pool=pool)
+
+
+GROUPS.append(Group('X4r', 'removeprefix / removesuffix as str (including the empty affix); remaining characters keep their settings',
+                    ['C10', 'C11'], 'U', ['AnsiString.removeprefix', 'AnsiString.removesuffix', 'AnsiString.clip'],
+                    rmfix_items, rmfix_task, bounds='none: abstract table, opaque text and affix (startswith/endswith '
+                    'uninterpreted)', assumes=['G2', 'SL', 'V5']))
